@@ -167,6 +167,26 @@ def check_property(pid, tier, seed):
     undecided += vund
     cmds += vcmds
 
+    # bounded stand-ins for functions that are out of the verifiers' reach: the native witness
+    # domains run on the real code on every check, labelled bounded, never counted as proved
+    for bn in spec.get("bounded_native", []):
+        log("native bounded stand-in: %s" % bn["unit"])
+        w = V.native_witness([bn["unit"]], log)
+        oid = "%s.%s.bounded" % (pid, bn["unit"])
+        u = dict(unit="native_" + bn["unit"], backend="native execution of the real crate (bounded stand-in)", functions=bn.get("functions", []),
+                 bounded=bn["bound"], obligations=[dict(id=oid, text=bn["text"])], failed=[], status="ok", time_s=None,
+                 meta=dict(native_cases=w.get("failing_cases", [])))
+        if not w.get("built"):
+            u["status"] = "undecided"
+            u["reason"] = "replay crate did not build: " + (w.get("build_tail") or "")[-300:]
+        elif w.get("failing_cases"):
+            u["status"] = "fail"
+            u["failed"] = [dict(msg="%s: %s" % (oid, bn["text"]), oid=oid,
+                                loc="bounded stand-in: %d failing case(s) on the real code, first: %s" % (
+                                    len(w["failing_cases"]), json.dumps(w["failing_cases"][0])[:400]))]
+        units.append(u)
+        cmds.append("verif-replay %s" % bn["unit"])
+
     # a unit may carry obligations of several properties: this check decides only its own
     # (ids prefixed by the property id; for C04 every `.safety` / `.panic_free` obligation)
     def mine(oid):
@@ -210,6 +230,10 @@ def check_property(pid, tier, seed):
     for u, fl in violations:
         if u["backend"].startswith("kani"):
             info = kani_replay(pid, u, log)
+        elif u["backend"].startswith("native"):
+            info = dict(kind="native-bounded-stand-in", property=pid, unit=u["unit"], failed_obligations=u["failed"],
+                        failing_cases=u["meta"].get("native_cases", []), confirmed_on_real_code=True,
+                        cmd="cd /verif/replay && cargo build --offline && verif-replay %s" % u["unit"].replace("native_", ""))
         else:
             info = V.verus_replay(pid, u, log)
         path = write_replay(pid, u["unit"], info)
